@@ -100,52 +100,54 @@ Definition two128 : Qc := qz (2 ^ 128).
 (** [f32::from_str]: [sign] (inf | infinity | nan | digits [. digits] [e [sign] digits]), at least one mantissa digit;
     the decimal is rounded to the nearest f32, overflowing to infinity.  Exponents beyond +-400 are not
     evaluated (the result is infinite or zero for any mantissa of fewer than 300 digits). *)
+Definition parse_exp (r2 : str) : option Z :=
+  match r2 with
+  | [] => Some 0%Z
+  | e :: r3 =>
+      if (e =? 101) || (e =? 69) then
+        match r3 with
+        | [] => None
+        | c3 :: r4 =>
+            let '(eneg, eds) := if c3 =? 45 then (true, r4) else if c3 =? 43 then (false, r4) else (false, r3) in
+            match eds with
+            | [] => None
+            | _ => match digits_val eds 0 with
+                   | Some n => Some (if eneg then (- Z.of_N n)%Z else Z.of_N n)
+                   | None => None
+                   end
+            end
+        end
+      else None
+  end.
+
+(** the f32 nearest to m * 10^e, with the sign *)
+Definition f32_of_decimal (neg : bool) (m : N) (e : Z) : fval :=
+  if m =? 0 then Fin 0%Qc
+  else if (400 <? e)%Z then FInf neg
+  else if (e <? -400)%Z then Fin 0%Qc
+  else
+    let v := f32round (qz (Z.of_N m) * qpow10 e)%Qc in
+    if qleb two128 v then FInf neg else Fin (if neg then (- v)%Qc else v).
+
+Definition parse_mant (neg : bool) (body : str) : option fval :=
+  let lb := map lower body in
+  if str_eqb lb (cs "inf") || str_eqb lb (cs "infinity") then Some (FInf neg)
+  else if str_eqb lb (cs "nan") then Some FNaN
+  else
+    let (ip, r1) := take_digits body in
+    let '(fp, r2) := match r1 with c1 :: r1' => if c1 =? 46 then take_digits r1' else ([], r1) | [] => ([], []) end in
+    match ip ++ fp with
+    | [] => None
+    | _ => match parse_exp r2 with
+           | None => None
+           | Some e => Some (f32_of_decimal neg (dec_of (ip ++ fp)) (e - Z.of_nat (length fp)))
+           end
+    end.
+
 Definition parse_f32 (s : str) : option fval :=
   match s with
   | [] => None
-  | c :: r =>
-      let '(neg, body) := if c =? 45 then (true, r) else if c =? 43 then (false, r) else (false, s) in
-      let lb := map lower body in
-      if str_eqb lb (cs "inf") || str_eqb lb (cs "infinity") then Some (FInf neg)
-      else if str_eqb lb (cs "nan") then Some FNaN
-      else
-        let (ip, r1) := take_digits body in
-        let '(fp, r2) := match r1 with c1 :: r1' => if c1 =? 46 then take_digits r1' else ([], r1) | [] => ([], []) end in
-        match ip, fp with
-        | [], [] => None
-        | _, _ =>
-            let ex : option Z :=
-              match r2 with
-              | [] => Some 0%Z
-              | e :: r3 =>
-                  if (e =? 101) || (e =? 69) then
-                    match r3 with
-                    | [] => None
-                    | c3 :: r4 =>
-                        let '(eneg, eds) := if c3 =? 45 then (true, r4) else if c3 =? 43 then (false, r4) else (false, r3) in
-                        match eds with
-                        | [] => None
-                        | _ => match digits_val eds 0 with
-                               | Some n => Some (if eneg then (- Z.of_N n)%Z else Z.of_N n)
-                               | None => None
-                               end
-                        end
-                    end
-                  else None
-              end in
-            match ex with
-            | None => None
-            | Some e =>
-                let m := dec_of (ip ++ fp) in
-                let e' := (e - Z.of_nat (length fp))%Z in
-                if m =? 0 then Some (Fin 0%Qc)
-                else if (400 <? e')%Z then Some (FInf neg)
-                else if (e' <? -400)%Z then Some (Fin 0%Qc)
-                else
-                  let v := f32round (qz (Z.of_N m) * qpow10 e')%Qc in
-                  if qleb two128 v then Some (FInf neg) else Some (Fin (if neg then (- v)%Qc else v))
-            end
-        end
+  | c :: r => if c =? 45 then parse_mant true r else if c =? 43 then parse_mant false r else parse_mant false s
   end.
 
 (** a list of number tokens as energies: any unreadable token is an error, any non-finite value leaves the model *)
